@@ -10,6 +10,7 @@ below `TOL²`) and `N := String`.  Core Lean only.
 -/
 import CBV.Model.Common
 import CBV.Gen.Tables
+import CBV.Gen.TC05
 
 namespace CBV.C05
 
